@@ -303,7 +303,10 @@ RULE = ("(a) terms of the shared `terms` family with aliases at every level (p=0
         "with GROUP BY / ORDER BY at every level, sub-queries of another class in FROM / JOIN / select list / IN / EXISTS, set "
         "operations with branch-specific aliases and a chain ORDER BY (model: coq/Query.v); (f) the same cases with alias VALUES "
         "that coincide with something else (own column name, another column, table name, table alias, keyword, empty string, "
-        "blank inside, mixed case), judged by a renaming-commutes oracle. Otherwise alias names are sentinels (zq..) so the oracle can count "
+        "blank inside, mixed case), judged by a renaming-commutes oracle; (g) half of the flat statements with GROUP BY / ORDER BY "
+        "are built by a random interleaving of single select()/where()/groupby()/having()/orderby() calls with str() of the "
+        "intermediate builder after random calls (the model is a function of the final spec: a difference is a state leak). "
+        "Otherwise alias names are sentinels (zq..) so the oracle can count "
         "them per clause. Non-trivial = some aliased object sits in a non-select position or inside another expression, or a "
         "GROUP BY/ORDER BY element is aliased; distinct by structural hash.")
 TRUSTED = [
@@ -504,7 +507,22 @@ def owner_name(obj):
 # ----------------------------------------------------------------------------------------------
 # implementation side
 # ----------------------------------------------------------------------------------------------
-def build_query(case, memo):
+def default_prog(case):
+    """the builder calls of a flat statement in the canonical order, nothing rendered in between"""
+    steps = [["select", i, False] for i in range(len(case["sel"]))]
+    if case.get("where") is not None:
+        steps.append(["where", 0, False])
+    steps += [["group", j, False] for j in range(len(case.get("group") or []))]
+    if case.get("having") is not None:
+        steps.append(["having", 0, False])
+    steps += [["order", k, False] for k in range(len(case.get("order") or []))]
+    return steps
+
+
+def build_query(case, memo, plain=False):
+    """flat statement through the builder API.  case["prog"] (optional): the calls as [op, index, render-after?] in the order
+    they are issued -- one select()/groupby()/orderby() call per element, interleaved, with str(q) of the INTERMEDIATE builder
+    after the flagged calls; the final statement is the same function of the spec (plain=True: canonical order, no renders)"""
     from pypika import Table, Order
     Q = qclass(case["cls"])
     t, u = Table("t"), Table("u")
@@ -513,15 +531,35 @@ def build_query(case, memo):
     q = Q.from_(t)
     if case.get("on") is not None:
         q = q.join(u).on(bld(case["on"], memo))
-    q = q.select(*[bld(x, memo) for x in case["sel"]])
-    if case.get("where") is not None:
-        q = q.where(bld(case["where"], memo))
-    if case.get("group"):
-        q = q.groupby(*[bld(x, memo) for x in case["group"]])
-    if case.get("having") is not None:
-        q = q.having(bld(case["having"], memo))
-    for x, d in case.get("order") or []:
-        q = q.orderby(bld(x, memo), order=None if d is None else getattr(Order, d))
+    prog = case.get("prog") if not plain else None
+    if prog is None:
+        q = q.select(*[bld(x, memo) for x in case["sel"]])
+        if case.get("where") is not None:
+            q = q.where(bld(case["where"], memo))
+        if case.get("group"):
+            q = q.groupby(*[bld(x, memo) for x in case["group"]])
+        if case.get("having") is not None:
+            q = q.having(bld(case["having"], memo))
+        for x, d in case.get("order") or []:
+            q = q.orderby(bld(x, memo), order=None if d is None else getattr(Order, d))
+        return q
+    for op, ix, render in prog:
+        if op == "select":
+            q = q.select(bld(case["sel"][ix], memo))
+        elif op == "where":
+            q = q.where(bld(case["where"], memo))
+        elif op == "group":
+            q = q.groupby(bld(case["group"][ix], memo))
+        elif op == "having":
+            q = q.having(bld(case["having"], memo))
+        elif op == "order":
+            x, d = case["order"][ix]
+            q = q.orderby(bld(x, memo), order=None if d is None else getattr(Order, d))
+        if render:
+            try:
+                str(q)                      # e.g. logging the intermediate statement
+            except Exception:  # noqa
+                pass
     return q
 
 
@@ -990,10 +1028,20 @@ def oracle(case, outcome):
         return judge_element(case["t"], text, "select" if c.get("wa") else "non-select", conv, memo, set(), False, {})
     cls = case["cls"]
     conv = (SPEC_QUOTE.get(cls, '"'), SPEC_AS.get(cls, False))
+    leak = []
+    if case.get("prog") is not None:
+        try:
+            plain = str(build_query(case, {}, plain=True))
+        except Exception as e:  # noqa
+            plain = "!" + type(e).__name__
+        if plain != text:
+            leak = [{"signature": ["C13", "QueryBuilder", "render-then-extend", "alias-state-leak"],
+                     "what": "the statement built by interleaved calls with intermediate str() renders differs from the same "
+                             "statement built in one go: %r vs %r (program %r)" % (text, plain, case["prog"])}]
     segs = split_statement(case, text)
     if segs is None:
-        return [{"signature": ["C13", cls, "statement", "unreadable"], "what": "cannot find the clauses of %r" % text}]
-    out = []
+        return leak + [{"signature": ["C13", cls, "statement", "unreadable"], "what": "cannot find the clauses of %r" % text}]
+    out = list(leak)
     if case["kind"] == "ins":
         parts = split_top(segs["values"])
         if len(parts) != len(case["row"]):
@@ -1003,7 +1051,7 @@ def oracle(case, outcome):
         return out
     sel_parts = split_top(segs["select"])
     if len(sel_parts) != len(case["sel"]):
-        return []
+        return leak
     selected_names = {alias_of(x) for x in case["sel"] if alias_of(x)}
     # which names does the RENDERED select list define (in any lexical form)?
     select_defs = {}
@@ -1206,7 +1254,26 @@ def gen_stmt(rng, tier):
         case["having"] = g.wrap(rng.choice(sel)) if rng.random() < 0.75 else g.boolean(1)
     if rng.random() < 0.5:
         case["order"] = [[element(), rng.choice([None, "asc", "desc"])] for _ in range(rng.choice([1, 1, 2, 3]))]
+    if rng.random() < 0.5 and (case["group"] or case["order"]):
+        case["prog"] = random_prog(rng, case)
     return case
+
+
+def random_prog(rng, case, p_render=0.5):
+    """a random interleaving of the builder calls (the relative order inside select / group by / order by is kept), each
+    followed by a render of the intermediate builder with probability p_render"""
+    lanes = [[["select", i] for i in range(len(case["sel"]))],
+             [["where", 0]] if case.get("where") is not None else [],
+             [["group", j] for j in range(len(case.get("group") or []))],
+             [["having", 0]] if case.get("having") is not None else [],
+             [["order", k] for k in range(len(case.get("order") or []))]]
+    lanes = [l for l in lanes if l]
+    prog = []
+    while lanes:
+        l = rng.choice(lanes)
+        prog.append(l.pop(0) + [rng.random() < p_render])
+        lanes = [x for x in lanes if x]
+    return prog
 
 
 def gen_term(rng, tier):
@@ -1702,6 +1769,24 @@ def nested_grid(outers=None, inners=None):
     return out
 
 
+def render_grid(classes=("Query", "OracleQuery", "PostgreSQLQuery")):
+    """an intermediate builder is rendered, then extended: (a) an aliased item is selected AFTER a render and then grouped /
+    ordered by (the reference must appear); (b) an element is ordered / grouped by BEFORE its alias is selected, with a
+    render in between; (c) every step rendered"""
+    out = []
+    day = F("created", "zqA")
+    for cls in classes:
+        for k in CONSUMING:
+            x = simple_top(k, "zqB")
+            c = stmt(cls, sel=[day, x], group=[day], order=[[x, None]])
+            out.append(dict(c, prog=[["select", 0, False], ["group", 0, True], ["select", 1, False], ["order", 0, False]]))
+            out.append(dict(c, prog=[["select", 0, True], ["order", 0, True], ["group", 0, True], ["select", 1, True]]))
+            c2 = stmt(cls, sel=[day, x], group=[x, day], order=[[day, "desc"], [x, "asc"]])
+            out.append(dict(c2, prog=[["group", 0, True], ["order", 0, True], ["select", 0, True], ["group", 1, True],
+                                      ["select", 1, True], ["order", 1, True]]))
+    return out
+
+
 def corpus():
     sc = dict(tf.STR_CTX)
     w_null = ["isnull", F("a"), "n"]
@@ -1723,7 +1808,7 @@ def corpus():
         proved.append(stmt(cls, sel=[ex_m, ex_s], on=["basic", "eq", F("a"), F("b"), None],
                            where=["basic", "gt", ex_m, I(0), None], group=[ex_m], having=["basic", "gt", ex_s, I(1), None],
                            order=[[ex_m, "desc"], [ex_s, None], [F("z", "zz"), None]]))
-    out = proved + grid_cases(("Query",)) + nested_grid() + collide_grid()
+    out = proved + grid_cases(("Query",)) + nested_grid() + collide_grid() + render_grid()
     # alias quoting of every consuming kind in the classes whose convention differs (sentinel names)
     for cls in ("SnowflakeQuery", "PostgreSQLQuery", "OracleQuery", "MSSQLQuery", "ClickHouseQuery", "MySQLQuery"):
         for k in CONSUMING + ["an", "isnull", "cplx", "nega"]:
@@ -1802,6 +1887,11 @@ def histogram(cases):
         h[k] = h.get(k, 0) + n
     for c in cases:
         inc("kind=" + c["kind"])
+        if c.get("prog") is not None:
+            inc("stmt-built-by-interleaved-calls")
+            inc("intermediate-renders", sum(1 for st in c["prog"] if st[2]))
+        if c.get("collide"):
+            inc("colliding-alias-values")
         if c["kind"] == "q":
             from harness import queries_family as qf
             for k_, v_ in qf.shape(c["q"]).items():
@@ -1843,7 +1933,7 @@ def targeted_search(rng, broken, mism_cases):
         out.append(gen_stmt(rng, "quick"))
     for _ in range(1500):
         out.append(gen_nested(rng, "quick"))
-    out += collide_grid([py for _, py in CLASSES])
+    out += collide_grid([py for _, py in CLASSES]) + render_grid([py for _, py in CLASSES])
     for _ in range(1500):
         out.append(gen_collide(rng, "quick"))
     return out
